@@ -1027,7 +1027,7 @@ func runStore(r *ev.Run) {
 	r.Assume("store: the ISCC backend is linearizable (each Put/Get takes effect at one point between call and return); a failed Put may or may not have been stored")
 	r.Assume("store: clients follow the MutableProtoStore contract: Get without locks, every handle method under one global mutex, Release(true) iff the message was modified")
 	r.Assume("store: 'eventually written' is judged as: after faults stop, Gets on fresh digests until one causes no write (at most 30); the Prometheus counters of the store are process-global, so no other user of BlobAccessMutableProtoStore may run concurrently with this monitor")
-	total := r.Pick(420, 6300)
+	total := r.Pick(420, 4200)
 	for j := 0; j < total; j++ {
 		if !runStoreRound(r, j, scheduleOf(j)) {
 			return
